@@ -360,6 +360,13 @@ func (m *QuestionModel) verifyChoiceMatch(answer Answer) error {
 			return fmt.Errorf("%w (%s): expected %q: answer %q matches question: %q == %q", ErrWrongAnswer, m.Filename(), answer.correctAnswers(), indexToLetter(i), strings.TrimSuffix(output, "\n"), strings.TrimSuffix(generated, "\n"))
 		}
 	}
+	// An answer marked correct must exist: "a, e" with three choices has
+	// no choice "e" that could match the question.
+	for i := len(outputs); i < 26; i++ {
+		if correctByIndex[i] {
+			return fmt.Errorf("%w (%s): answer %q marked correct but there are only %d answer choices", ErrWrongAnswer, m.Filename(), indexToLetter(i), len(outputs))
+		}
+	}
 	return nil
 }
 
